@@ -32,7 +32,7 @@ def dy(rng, hi=24):
 
 
 # sha256 of lean/FairModel/Generated/FrameSrc.lean as translated from the pinned tree (see c14.PINNED_SRC_SHA256 for the rule)
-PINNED_FRAMESRC_SHA256 = "2389e898c428858014f476a7d84c9b72a01cef2fff616e5430b8001905959ea2"
+PINNED_FRAMESRC_SHA256 = "3c26ace9acf61b6f72150dfd6274773c326980033a169c64e8e928199d2a6764"
 _SRC_STATE = {}
 
 
